@@ -2,6 +2,7 @@
 name -> (argument types, result type).  gen_driver.py turns this table into
 coq/extract/Extract.v and build/driver.ml."""
 from proto import L, O, T, STRS, TRIP, TRIPS
+QTRIPS = L(T('nat', 'nat', 'Q'))
 
 SIGS = {
     'api_types': (['nat', 'N', 'Z', 'Q'], T('nat', 'N', 'Z', 'Q')),
@@ -20,4 +21,19 @@ SIGS = {
     'api_jaccard': ([L(O('N')), L(O('N'))], O('Q')),
     'api_overlap': ([L(O('N')), L(O('N'))], 'nat'),
     'api_overlap_coefficient': ([L(O('N')), L(O('N'))], T('nat', 'Q')),
+    # symmetric-delete search
+    'api_comb_gen': (['nat', 'str'], STRS),
+    'api_symdel_self_lev': (['nat', STRS], TRIPS),
+    'api_symdel_self_ham': (['nat', STRS], TRIPS),
+    'api_symdel_self_custom': (['nat', 'nat', O('Q'), STRS], QTRIPS),
+    'api_symdel_lookup_lev': (['nat', STRS, STRS], TRIPS),
+    'api_symdel_lookup_ham': (['nat', STRS, STRS], TRIPS),
+    'api_symdel_lookup_custom': (['nat', 'nat', O('Q'), STRS, STRS], QTRIPS),
+    'api_brute_self_lev': (['nat', STRS], TRIPS),
+    'api_brute_self_ham': (['nat', STRS], TRIPS),
+    'api_brute_self_custom': (['nat', 'nat', O('Q'), STRS], QTRIPS),
+    'api_brute_cross_lev': (['nat', STRS, STRS], TRIPS),
+    'api_brute_cross_ham': (['nat', STRS, STRS], TRIPS),
+    'api_brute_cross_custom': (['nat', 'nat', O('Q'), STRS, STRS], QTRIPS),
+    'api_custom_dist': (['nat', 'str', 'str'], 'Q'),
 }
